@@ -281,14 +281,12 @@ Fixpoint values_set (k v : bytes) (l : list (bytes * bytes)) : list (bytes * byt
   | (k', v') :: t => if beq k' k then (k, v) :: t else (k', v') :: values_set k v t
   end.
 (** func (v Values) Encode() string — single-valued keys, sorted by key *)
-Definition values_encode (l : list (bytes * bytes)) : bytes :=
-  let sorted := fold_right insert_kv [] l in
-  let fix go (first : bool) (l : list (bytes * bytes)) : bytes :=
-      match l with
-      | [] => []
-      | (k, v) :: t => (if first then [] else [38]) ++ escape k MQuery ++ [61] ++ escape v MQuery ++ go false t
-      end in
-  go true sorted.
+Fixpoint encode_pairs (first : bool) (l : list (bytes * bytes)) : bytes :=
+  match l with
+  | [] => []
+  | (k, v) :: t => (if first then [] else [38]) ++ escape k MQuery ++ [61] ++ escape v MQuery ++ encode_pairs false t
+  end.
+Definition values_encode (l : list (bytes * bytes)) : bytes := encode_pairs true (fold_right insert_kv [] l).
 
 (** func parseQuery(m Values, query string): the accepted pairs in order (errors are dropped by
     URL.Query).  One '&'-separated piece: *)
